@@ -1,4 +1,6 @@
 import ChumskyModel.Proofs.Lemmas.Refine
+set_option linter.unusedSimpArgs false
+set_option linter.unusedVariables false
 namespace Chumsky
 
 variable {R : Runner} {P : SRunner}
@@ -91,5 +93,572 @@ theorem step_refines_just (env : Env) (m : Mode) (ts : List Nat) (st : St) :
   cases justRun env ts st <;> cases sJust env ts st.ss <;> simp
   intro h1 h2 h3
   exact ⟨rfl, h1, ⟨[], by simp [h2]⟩, h3⟩
+
+theorem val_rel_pair {m m1 m2 : Mode} {va va' vb vb' : Val} (h1 : va = m1.bind va') (h2 : vb = m2.bind vb')
+    (hm1 : m = .emit → m1 = .emit) (hm2 : m = .emit → m2 = .emit) :
+    m.bind (.pair va vb) = m.bind (.pair va' vb') := by
+  cases m
+  · simp [hm1 rfl, hm2 rfl] at h1 h2; simp [h1, h2]
+  · rfl
+
+section
+variable {N : NextRunner} {K : MkRunner} {SN : SNextRunner} {SK : SMkRunner}
+
+theorem step_refines_seq (hR : RunnerRefines R P) (env : Env) (hm : env.memoOn = false) (m : Mode) (st : St) (L : Nat) :
+    ∀ g, (match g with
+      | .then_ .. | .ignoreThen .. | .thenIgnore .. | .delimitedBy .. | .paddedBy .. => True
+      | _ => False) →
+    Refines m st.errs st.ctx (step R N K L env m g st) (pegStep P SN SK L env g st.ss st.ctx) := by
+  intro g hg
+  cases g <;> simp only at hg
+  case then_ a b =>
+    simp only [step, pegStep]
+    refine Refines.andThen0 (hR env m a st hm) ?_
+    intro va st1 va' s1 e1 h1
+    obtain ⟨new1, he1, hr1, hb⟩ := hR.at hm (m := m) b h1
+    refine Refines.andThen hb ?_
+    intro vb st2 vb' s2 e2 h2
+    exact OkRel.seq hr1 h2 (val_rel_pair h1.val h2.val id id)
+  case ignoreThen a b =>
+    simp only [step, pegStep]
+    refine Refines.andThen0 (hR env .check a st hm) ?_
+    intro va st1 va' s1 e1 h1
+    obtain ⟨new1, he1, hr1, hb⟩ := hR.at hm (m := m) b h1
+    refine Refines.andThen hb ?_
+    intro vb st2 vb' s2 e2 h2
+    exact OkRel.seq hr1 h2 h2.val
+  case thenIgnore a b =>
+    simp only [step, pegStep]
+    refine Refines.andThen0 (hR env m a st hm) ?_
+    intro va st1 va' s1 e1 h1
+    obtain ⟨new1, he1, hr1, hb⟩ := hR.at hm (m := .check) b h1
+    refine Refines.andThen hb ?_
+    intro vb st2 vb' s2 e2 h2
+    exact OkRel.seq hr1 h2 h1.val
+  case delimitedBy a l r =>
+    simp only [step, pegStep]
+    refine Refines.andThen0 (hR env .check l st hm) ?_
+    intro v1 st1 v1' s1 e1 h1
+    obtain ⟨new1, he1, hr1, hb⟩ := hR.at hm (m := m) a h1
+    refine Refines.andThen hb ?_
+    intro v2 st2 v2' s2 e2 h2
+    have h12 : OkRel m st.errs st.ctx v2 st2 v2' s2 (e1 ++ e2) := OkRel.seq hr1 h2 h2.val
+    obtain ⟨new2, he2, hr2, hc⟩ := hR.at hm (m := .check) r h12
+    refine Refines.andThen hc ?_
+    intro v3 st3 v3' s3 e3 h3
+    exact OkRel.seq hr2 h3 h2.val
+  case paddedBy a p =>
+    simp only [step, pegStep]
+    refine Refines.andThen0 (hR env .check p st hm) ?_
+    intro v1 st1 v1' s1 e1 h1
+    obtain ⟨new1, he1, hr1, hb⟩ := hR.at hm (m := m) a h1
+    refine Refines.andThen hb ?_
+    intro v2 st2 v2' s2 e2 h2
+    have h12 : OkRel m st.errs st.ctx v2 st2 v2' s2 (e1 ++ e2) := OkRel.seq hr1 h2 h2.val
+    obtain ⟨new2, he2, hr2, hc⟩ := hR.at hm (m := .check) p h12
+    refine Refines.andThen hc ?_
+    intro v3 st3 v3' s3 e3 h3
+    exact OkRel.seq hr2 h3 h2.val
+end
+
+/-- `st` is the state `st0` possibly after failed attempts that were rewound: same position, inspector,
+    secondary errors and context -/
+structure SameAs (st st0 : St) : Prop where
+  pos : st.pos = st0.pos
+  insp : st.insp = st0.insp
+  errs : st.errs = st0.errs
+  ctx : st.ctx = st0.ctx
+
+theorem SameAs.refl (st : St) : SameAs st st := ⟨rfl, rfl, rfl, rfl⟩
+
+theorem SameAs.ss {st st0 : St} (h : SameAs st st0) : st.ss = st0.ss := by
+  simp [St.ss, h.pos, h.insp]
+
+theorem SameAs.of_rewind {st' st0 : St} (h : FailRel st0.errs st0.ctx st') : SameAs (st'.rewind st0.save) st0 :=
+  ⟨rfl, rfl, by simp [take_of_prefix h.errs], by simp [h.ctx]⟩
+
+theorem RunnerRefines.same (hR : RunnerRefines R P) {env : Env} (hm : env.memoOn = false) (m : Mode) (g : G)
+    {st st0 : St} (h : SameAs st st0) :
+    Refines m st0.errs st0.ctx (R env m g st) (P env g st0.ss st0.ctx) := by
+  have := hR env m g st hm
+  rw [h.errs, h.ctx, h.ss] at this
+  exact this
+
+theorem choiceTuple_refines (hR : RunnerRefines R P) (env : Env) (hm : env.memoOn = false) (m : Mode) (st0 : St) :
+    ∀ (gs : List G) (st : St), SameAs st st0 → (gs = [] → st.alt.isSome = true) →
+    Refines m st0.errs st0.ctx (choiceTuple R env m st0.save gs st) (sChoice P env st0.ctx st0.ss gs) := by
+  intro gs
+  induction gs with
+  | nil =>
+    intro st hs ha
+    simp only [choiceTuple, sChoice, failRel_iff]
+    exact ⟨by simp [hs.errs], hs.ctx, ha rfl⟩
+  | cons g gs ih =>
+    intro st hs _
+    simp only [choiceTuple, sChoice]
+    have h := hR.same hm m g hs
+    revert h
+    cases R env m g st <;> cases P env g st0.ss st0.ctx <;> simp [Refines]
+    intro hf
+    exact ih _ (SameAs.of_rewind hf) (fun _ => by simp [hf.alt])
+
+theorem choiceSlice_refines (hR : RunnerRefines R P) (env : Env) (hm : env.memoOn = false) (m : Mode) (st0 : St) :
+    ∀ (gs : List G) (st : St), st0.errs <+: st.errs → st.ctx = st0.ctx → (gs = [] → st.alt.isSome = true) →
+    Refines m st0.errs st0.ctx (choiceSlice R env m st0.save gs st) (sChoice P env st0.ctx st0.ss gs) := by
+  intro gs
+  induction gs with
+  | nil =>
+    intro st hp hc ha
+    simp only [choiceSlice, sChoice, failRel_iff]
+    exact ⟨hp, hc, ha rfl⟩
+  | cons g gs ih =>
+    intro st hp hc _
+    simp only [choiceSlice, sChoice]
+    have hs : SameAs (st.rewind st0.save) st0 := ⟨rfl, rfl, by simp [take_of_prefix hp], by simp [hc]⟩
+    have h := hR.same hm m g hs
+    revert h
+    cases R env m g (st.rewind st0.save) <;> cases P env g st0.ss st0.ctx <;> simp [Refines]
+    intro hf
+    exact ih _ hf.errs hf.ctx (fun _ => hf.alt)
+
+/-- accumulators of values: equal in emit mode, irrelevant in check mode -/
+def AccRel (m : Mode) (acc acc' : List Val) : Prop := m = .emit → acc = acc'
+
+theorem AccRel.cons {m m1 : Mode} {acc acc' : List Val} {v v' : Val} (h : AccRel m acc acc') (hv : v = m1.bind v')
+    (hm1 : m = .emit → m1 = .emit) : AccRel m (v :: acc) (v' :: acc') := by
+  intro he
+  subst he
+  simp [hm1 rfl] at hv
+  simp [hv, h rfl]
+
+theorem AccRel.bind_ofList {m : Mode} {acc acc' : List Val} (h : AccRel m acc acc') :
+    m.bind (Val.ofList acc.reverse) = m.bind (Val.ofList acc'.reverse) := by
+  cases m
+  · simp [h rfl]
+  · rfl
+
+theorem groupLoop_refines (hR : RunnerRefines R P) (env : Env) (hm : env.memoOn = false) (m : Mode)
+    (base : List Loc) (ctx : Val) :
+    ∀ (gs : List G) (st : St) (acc acc' : List Val) (new : List Loc) (em : List Emis),
+      st.errs = base ++ new → EmsRel new em → st.ctx = ctx → AccRel m acc acc' →
+      Refines m base ctx (groupLoop R env m gs st acc) (sGroup P env ctx gs st.ss acc' em) := by
+  intro gs
+  induction gs with
+  | nil =>
+    intro st acc acc' new em he hr hc ha
+    simp only [groupLoop, sGroup, okRel_iff]
+    exact ⟨ha.bind_ofList, rfl, ⟨new, he, hr⟩, hc⟩
+  | cons g gs ih =>
+    intro st acc acc' new em he hr hc ha
+    simp only [groupLoop, sGroup]
+    have h := hR env m g st hm
+    rw [he, hc] at h
+    revert h
+    cases R env m g st <;> cases P env g st.ss ctx <;> simp [Refines]
+    · intro h
+      obtain ⟨new2, he2, hr2⟩ := h.errs
+      have := ih _ (_ :: acc) (_ :: acc') (new ++ new2) _ (by simp [he2]) (hr.append hr2) h.ctx
+        (ha.cons h.val (fun h => h))
+      rw [h.ss] at this
+      exact this
+    · exact fun h => h.rebase
+
+theorem Refines.restoreCtx {m base c1 c0 o so} (h : Refines m base c1 o so) :
+    Refines m base c0 (o.restoreCtx c0) so := by
+  cases o <;> cases so <;> simp_all [Refines, Out.restoreCtx]
+  · exact ⟨h.val, h.ss, h.errs, rfl⟩
+  · exact ⟨h.errs, rfl, h.alt⟩
+
+theorem customFn_refines (env : Env) (m : Mode) (f : CustomFn) (st : St) :
+    Refines m st.errs st.ctx (runCustom env m f st) (sCustom env f st.ss) := by
+  cases f with
+  | next msg =>
+    unfold runCustom sCustom
+    cases h : env.toks[st.pos]? with
+    | none =>
+      simp only [next_none h, ss_pos, h, failRel_iff]
+      exact ⟨by simp, by simp, by simp⟩
+    | some t =>
+      simp only [next_some h, ss_pos, h, okRel_iff]
+      exact ⟨rfl, rfl, ⟨[], by simp⟩, rfl⟩
+  | take2Fail msg =>
+    simp only [runCustom, sCustom, failRel_iff]
+    exact ⟨by simp, by simp, by simp⟩
+  | nothing =>
+    simp only [runCustom, sCustom, okRel_iff]
+    exact ⟨rfl, rfl, ⟨[], by simp⟩, rfl⟩
+  | failNow msg =>
+    simp only [runCustom, sCustom, failRel_iff]
+    exact ⟨by simp, by simp, by simp⟩
+
+section
+variable {N : NextRunner} {K : MkRunner} {SN : SNextRunner} {SK : SMkRunner}
+
+theorem step_refines_prim (env : Env) (m : Mode) (st : St) (L : Nat) :
+    ∀ g, (match g with
+      | .end_ | .empty | .any | .just .. | .oneOf .. | .noneOf .. | .select .. | .custom .. | .todo
+      | .configureJust .. => True
+      | _ => False) →
+    Refines m st.errs st.ctx (step R N K L env m g st) (pegStep P SN SK L env g st.ss st.ctx) := by
+  intro g hg
+  cases g <;> simp only at hg
+  case end_ =>
+    simp only [step, pegStep]
+    cases h : env.toks[st.pos]? with
+    | none =>
+      simp only [next_none h, ss_pos, h, okRel_iff]
+      exact ⟨(bind_unit m).symm, rfl, ⟨[], by simp⟩, rfl⟩
+    | some t =>
+      simp only [next_some h, ss_pos, h, failRel_iff]
+      exact fail_after_rewind st (st1 := { st with pos := st.pos + 1, insp := st.insp ++ [t] })
+        (List.prefix_refl _) rfl _ _ _
+  case empty =>
+    simp only [step, pegStep, okRel_iff]
+    exact ⟨(bind_unit m).symm, rfl, ⟨[], by simp⟩, rfl⟩
+  case any => exact tokenPrim_refines ..
+  case just ts => exact step_refines_just ..
+  case oneOf ts => exact tokenPrim_refines ..
+  case noneOf ts => exact tokenPrim_refines ..
+  case select ts => exact tokenPrim_refines ..
+  case custom f => exact customFn_refines ..
+  case todo => simp [step, pegStep, Refines]
+  case configureJust c ts =>
+    simp only [step, pegStep]
+    exact step_refines_just ..
+
+theorem step_refines_choice (hR : RunnerRefines R P) (env : Env) (hm : env.memoOn = false) (m : Mode) (st : St) (L : Nat) :
+    ∀ g, (match g with
+      | .group .. | .groupArr .. | .or_ .. | .choice .. => True
+      | _ => False) →
+    Refines m st.errs st.ctx (step R N K L env m g st) (pegStep P SN SK L env g st.ss st.ctx) := by
+  intro g hg
+  cases g <;> simp only at hg
+  case group gs =>
+    simp only [step, pegStep]
+    exact groupLoop_refines hR env hm m st.errs st.ctx gs st [] [] [] [] (by simp) trivial rfl (fun _ => rfl)
+  case groupArr gs =>
+    simp only [step, pegStep]
+    exact groupLoop_refines hR env hm m st.errs st.ctx gs st [] [] [] [] (by simp) trivial rfl (fun _ => rfl)
+  case or_ a b =>
+    simp only [step, pegStep]
+    exact choiceTuple_refines hR env hm m st [a, b] st (SameAs.refl st) (by simp)
+  case choice fl gs =>
+    cases fl with
+    | tuple =>
+      match gs with
+      | [] => simp [step, pegStep, Refines]
+      | [g] =>
+        simp only [step, pegStep, sChoice]
+        have h := hR env m g st hm
+        revert h
+        cases R env m g st <;> cases P env g st.ss st.ctx <;> simp [Refines]
+      | g1 :: g2 :: gs =>
+        simp only [step, pegStep]
+        exact choiceTuple_refines hR env hm m st (g1 :: g2 :: gs) st (SameAs.refl st) (by simp)
+    | slice =>
+      match gs with
+      | [] =>
+        simp only [step, pegStep, sChoice, failRel_iff]
+        exact ⟨by simp, by simp, by simp⟩
+      | g :: gs =>
+        simp only [step, pegStep]
+        exact choiceSlice_refines hR env hm m st (g :: gs) st (List.prefix_refl _) rfl (by simp)
+end
+
+section
+variable {N : NextRunner} {K : MkRunner} {SN : SNextRunner} {SK : SMkRunner}
+
+/-- a sub-run started from `st` with a different pending error -/
+theorem RunnerRefines.withAlt (hR : RunnerRefines R P) {env : Env} (hm : env.memoOn = false) (m : Mode) (g : G)
+    (st : St) (alt : Option Loc) :
+    Refines m st.errs st.ctx (R env m g { st with alt := alt }) (P env g st.ss st.ctx) :=
+  hR env m g { st with alt := alt } hm
+
+theorem step_refines_value (hR : RunnerRefines R P) (env : Env) (hm : env.memoOn = false) (m : Mode) (st : St) (L : Nat) :
+    ∀ g, (match g with
+      | .map .. | .to .. | .ignored .. | .toSpan .. | .toSlice .. | .mapWithSpan .. | .mapWithState ..
+      | .mapWithCtx .. | .validate .. | .tryMapWith .. | .boxed .. | .call .. | .memoized .. => True
+      | _ => False) →
+    Refines m st.errs st.ctx (step R N K L env m g st) (pegStep P SN SK L env g st.ss st.ctx) := by
+  intro g hg
+  cases g <;> simp only at hg
+  case map f a =>
+    simp only [step, pegStep]
+    refine Refines.andThen0 (hR env m a st hm) ?_
+    intro v st1 v' s1 e1 h1
+    refine OkRel.mono h1 ?_
+    cases m <;> simp [h1.val]
+  case to v a =>
+    simp only [step, pegStep]
+    refine Refines.andThen0 (hR env .check a st hm) ?_
+    intro v st1 v' s1 e1 h1
+    exact OkRel.mono h1 rfl
+  case ignored a =>
+    simp only [step, pegStep]
+    refine Refines.andThen0 (hR env .check a st hm) ?_
+    intro v st1 v' s1 e1 h1
+    exact OkRel.mono h1 (bind_unit m).symm
+  case toSpan a =>
+    simp only [step, pegStep]
+    refine Refines.andThen0 (hR env m a st hm) ?_
+    intro v st1 v' s1 e1 h1
+    refine OkRel.mono h1 ?_
+    simp [← h1.ss]
+  case toSlice a =>
+    simp only [step, pegStep]
+    refine Refines.andThen0 (hR env .check a st hm) ?_
+    intro v st1 v' s1 e1 h1
+    refine OkRel.mono h1 ?_
+    simp [← h1.ss]
+  case mapWithSpan a =>
+    simp only [step, pegStep]
+    refine Refines.andThen0 (hR env m a st hm) ?_
+    intro v st1 v' s1 e1 h1
+    refine OkRel.mono h1 ?_
+    cases m <;> simp [h1.val, ← h1.ss]
+  case mapWithState a =>
+    simp only [step, pegStep]
+    refine Refines.andThen0 (hR env m a st hm) ?_
+    intro v st1 v' s1 e1 h1
+    refine OkRel.mono h1 ?_
+    cases m <;> simp [h1.val, ← h1.ss]
+  case mapWithCtx a =>
+    simp only [step, pegStep]
+    refine Refines.andThen0 (hR env m a st hm) ?_
+    intro v st1 v' s1 e1 h1
+    refine OkRel.mono h1 ?_
+    cases m <;> simp [h1.val, h1.ctx]
+  case validate f a =>
+    simp only [step, pegStep]
+    refine Refines.andThen0 (hR env .emit a st hm) ?_
+    intro v st1 v' s1 e1 h1
+    have hv : v = v' := by simpa using h1.val
+    subst hv
+    have hs1 : s1 = st1.ss := h1.ss.symm
+    subst hs1
+    simp only [okRel_iff, ss_pos]
+    obtain ⟨new1, he1, hr1⟩ := h1.errs
+    by_cases hp : f.emitIf.eval v = true
+    · simp only [hp, if_true]
+      refine ⟨rfl, rfl, ⟨new1 ++ List.replicate f.count
+        ⟨st.pos, env.ek.userErr (env.mkSpan st.pos st1.pos) f.msg⟩, by simp [he1], hr1.append ?_⟩, h1.ctx⟩
+      generalize f.count = n
+      induction n with
+      | zero => simp
+      | succ n ih => exact ⟨rfl, ih⟩
+    · simp only [hp]
+      exact ⟨rfl, rfl, ⟨new1, he1, hr1⟩, h1.ctx⟩
+  case tryMapWith f a =>
+    simp only [step, pegStep]
+    refine Refines.andThen0 (hR env .emit a st hm) ?_
+    intro v st1 v' s1 e1 h1
+    have hv : v = v' := by simpa using h1.val
+    subst hv
+    by_cases hp : f.rejectIf.eval v = true
+    · simp only [hp, if_true, failRel_iff]
+      obtain ⟨new1, he1, _⟩ := h1.errs
+      exact ⟨by simp [he1], by simp [h1.ctx], by simp⟩
+    · simp only [hp]
+      exact OkRel.mono h1 rfl
+  case boxed a =>
+    simp only [step, pegStep]
+    exact hR env m a st hm
+  case call k =>
+    simp only [step, pegStep]
+    cases env.defs[k]? with
+    | none => simp [Refines]
+    | some d => exact hR env m d st hm
+  case memoized id a =>
+    simp only [step, pegStep, hm]
+    exact hR env m a st hm
+end
+
+section
+variable {N : NextRunner} {K : MkRunner} {SN : SNextRunner} {SK : SMkRunner}
+
+theorem step_refines_look (hR : RunnerRefines R P) (env : Env) (hm : env.memoOn = false) (m : Mode) (st : St) (L : Nat) :
+    ∀ g, (match g with
+      | .orNot .. | .not_ .. | .andIs .. | .rewind .. | .filter .. | .tryMap .. => True
+      | _ => False) →
+    Refines m st.errs st.ctx (step R N K L env m g st) (pegStep P SN SK L env g st.ss st.ctx) := by
+  intro g hg
+  cases g <;> simp only at hg
+  case orNot a =>
+    simp only [step, pegStep]
+    have h := hR env m a st hm
+    revert h
+    cases R env m a st <;> cases P env a st.ss st.ctx <;> simp [Refines]
+    · intro h
+      refine OkRel.mono h ?_
+      cases m <;> simp [h.val]
+    · intro hf
+      exact ⟨rfl, rfl, ⟨[], by simp [take_of_prefix hf.errs]⟩, by simp [hf.ctx]⟩
+  case not_ a =>
+    simp only [step, pegStep]
+    have h := hR.withAlt hm .check a st none
+    revert h
+    cases R env .check a { st with alt := none } <;> cases P env a st.ss st.ctx <;> simp [Refines]
+    · intro h
+      obtain ⟨new1, he1, _⟩ := h.errs
+      refine ⟨?_, ?_, by simp⟩
+      · simp [he1]
+      · simp [h.ctx]
+    · intro hf
+      exact ⟨(bind_unit m).symm, rfl, ⟨[], by simp [take_of_prefix hf.errs]⟩, by simp [hf.ctx]⟩
+  case andIs a b =>
+    simp only [step, pegStep]
+    have h := hR env m a st hm
+    revert h
+    cases hra : R env m a st <;> cases hpa : P env a st.ss st.ctx <;> simp [Refines, SOut.andThen]
+    case ok.ok v st1 v' s1 e1 =>
+      intro h1
+      obtain ⟨new1, he1, hr1⟩ := h1.errs
+      have hb := hR env .check b (st1.rewindInput st.save) hm
+      simp only [rewindInput_errs, rewindInput_ctx, he1, h1.ctx] at hb
+      have hss : (st1.rewindInput st.save).ss = st.ss := rfl
+      rw [hss] at hb
+      revert hb
+      cases R env .check b (st1.rewindInput st.save) <;> cases P env b st.ss st.ctx <;> simp [Refines]
+      · intro h2
+        obtain ⟨new2, he2, hr2⟩ := h2.errs
+        refine ⟨h1.val, ?_, ⟨new1 ++ new2, by simp [he2], hr1.append hr2⟩, by simp [h2.ctx]⟩
+        simp [St.ss, ← h1.ss]
+      · exact fun h => h.rebase
+    case fail.fail st1 =>
+      intro hf
+      exact ⟨by simp [take_of_prefix hf.errs], by simp [hf.ctx], by simp [hf.alt]⟩
+  case rewind a =>
+    simp only [step, pegStep]
+    have h := hR env m a st hm
+    revert h
+    cases R env m a st <;> cases P env a st.ss st.ctx <;> simp [Refines, SOut.andThen]
+    · intro h
+      exact ⟨h.val, rfl, by simpa using h.errs, by simp [h.ctx]⟩
+  case filter p a =>
+    simp only [step, pegStep]
+    refine Refines.andThen0 (hR env .emit a st hm) ?_
+    intro v st1 v' s1 e1 h1
+    have hv : v = v' := by simpa using h1.val
+    subst hv
+    by_cases hp : p.eval v = true
+    · simp only [hp, if_true]
+      exact OkRel.mono h1 rfl
+    · simp only [hp]
+      obtain ⟨new1, he1, _⟩ := h1.errs
+      exact fail_after_rewind st (by simp [he1]) h1.ctx _ _ _
+  case tryMap f a =>
+    simp only [step, pegStep]
+    have h := hR.withAlt hm .emit a st none
+    revert h
+    cases R env .emit a { st with alt := none } <;> cases P env a st.ss st.ctx <;> simp [Refines, SOut.andThen]
+    case ok.ok v st1 v' s1 e1 =>
+      intro h1
+      have hv : v = v' := by simpa using h1.val
+      subst hv
+      obtain ⟨new1, he1, hr1⟩ := h1.errs
+      by_cases hp : f.rejectIf.eval v = true
+      · simp only [hp, if_true, failRel_iff]
+        exact ⟨by simp [he1], by simp [h1.ctx], by simp⟩
+      · simp only [hp, okRel_iff]
+        exact ⟨rfl, by simp [St.ss, ← h1.ss], ⟨new1, by simp [he1], hr1⟩, by simp [h1.ctx]⟩
+    case fail.fail st1 =>
+      intro hf
+      exact ⟨by simp [hf.errs], by simp [hf.ctx], by simp [readdAlt_alt_isSome, hf.alt]⟩
+end
+
+def SOut.restoreInsp (insp : List Nat) : SOut → SOut
+  | .ok v s1 e1 => .ok v ⟨s1.pos, insp⟩ e1
+  | o => o
+
+theorem Refines.restoreInsp {m base ctx o so} (insp : List Nat) (h : Refines m base ctx o so) :
+    Refines m base ctx (o.restoreInsp insp) (so.restoreInsp insp) := by
+  cases o <;> cases so <;> simp only [Refines, Out.restoreInsp, SOut.restoreInsp] at h ⊢ <;> try exact h
+  · exact ⟨h.val, by simp [St.ss, ← h.ss], h.errs, h.ctx⟩
+  · exact ⟨h.errs, h.ctx, h.alt⟩
+
+theorem emRel_inCtx {env : Env} {l : Loc} {e : Emis} (lbl start : Nat) (h : EmRel l e) :
+    EmRel ⟨l.pos, env.ek.inContext l.err lbl (env.mkSpan start l.pos)⟩ (Emis.inCtx env lbl start e) := by
+  cases e with
+  | user u => simp [EmRel] at h; subst h; simp [EmRel, Emis.inCtx]
+  | recovered p => simp [EmRel] at h; simp [EmRel, Emis.inCtx, h]
+
+theorem emsRel_inCtx {env : Env} {ls : List Loc} {es : List Emis} (lbl start : Nat) (h : EmsRel ls es) :
+    EmsRel (ls.map fun l => ⟨l.pos, env.ek.inContext l.err lbl (env.mkSpan start l.pos)⟩)
+      (es.map (Emis.inCtx env lbl start)) := by
+  induction ls generalizing es with
+  | nil => cases es <;> simp_all [EmsRel]
+  | cons l ls ih =>
+    cases es with
+    | nil => simp [EmsRel] at h
+    | cons e es => exact ⟨emRel_inCtx lbl start h.1, ih h.2⟩
+
+theorem ctxSecondary_append (env : Env) (l start : Nat) (base new : List Loc) :
+    ctxSecondary env l start base.length (base ++ new) =
+      base ++ new.map fun e => ⟨e.pos, env.ek.inContext e.err l (env.mkSpan start e.pos)⟩ := by
+  simp [ctxSecondary]
+
+theorem RunnerRefines.atCtx (hR : RunnerRefines R P) {env : Env} (hm : env.memoOn = false)
+    {m' m : Mode} {base ctx v st1 v' s1 e1} (g : G) (cv : Val) (h : OkRel m' base ctx v st1 v' s1 e1) :
+    ∃ new1, st1.errs = base ++ new1 ∧ EmsRel new1 e1 ∧
+      Refines m (base ++ new1) ctx ((R env m g { st1 with ctx := cv }).restoreCtx ctx) (P env g s1 cv) := by
+  obtain ⟨new1, he, hr⟩ := h.errs
+  refine ⟨new1, he, hr, ?_⟩
+  have key : ∀ (b : List Loc) (s : SS), st1.errs = b → st1.ss = s →
+      Refines m b ctx ((R env m g { st1 with ctx := cv }).restoreCtx ctx) (P env g s cv) := by
+    intro b s hb hs
+    subst hb; subst hs
+    exact (hR env m g { st1 with ctx := cv } hm).restoreCtx
+  exact key _ _ he h.ss
+
+section
+variable {N : NextRunner} {K : MkRunner} {SN : SNextRunner} {SK : SMkRunner}
+
+theorem step_refines_ctx (hR : RunnerRefines R P) (env : Env) (hm : env.memoOn = false) (m : Mode) (st : St) (L : Nat) :
+    ∀ g, (match g with
+      | .withCtx .. | .ignoreWithCtx .. | .thenWithCtx .. | .mapCtx .. | .withState .. => True
+      | _ => False) →
+    Refines m st.errs st.ctx (step R N K L env m g st) (pegStep P SN SK L env g st.ss st.ctx) := by
+  intro g hg
+  cases g <;> simp only at hg
+  case withCtx cv a =>
+    simp only [step, pegStep]
+    exact (hR env m a { st with ctx := cv } hm).restoreCtx
+  case mapCtx f a =>
+    simp only [step, pegStep]
+    exact (hR env m a { st with ctx := f.eval st.ctx } hm).restoreCtx
+  case ignoreWithCtx a b =>
+    simp only [step, pegStep]
+    refine Refines.andThen0 (hR env .emit a st hm) ?_
+    intro va st1 va' s1 e1 h1
+    have hv : va = va' := by simpa using h1.val
+    subst hv
+    obtain ⟨new1, he1, hr1, hb⟩ := hR.atCtx hm (m := m) b va h1
+    have : ∀ o so, Refines m (st.errs ++ new1) st.ctx o so →
+        Refines m st.errs st.ctx o (so.andThen fun vb s2 e2 => SOut.ok vb s2 (e1 ++ e2)) := by
+      intro o so h
+      cases o <;> cases so <;> simp_all [Refines, SOut.andThen]
+      · exact OkRel.seq hr1 h h.val
+      · exact h.rebase
+    exact this _ _ hb
+  case thenWithCtx a b =>
+    simp only [step, pegStep]
+    refine Refines.andThen0 (hR env .emit a st hm) ?_
+    intro va st1 va' s1 e1 h1
+    have hv : va = va' := by simpa using h1.val
+    subst hv
+    obtain ⟨new1, he1, hr1, hb⟩ := hR.atCtx hm (m := m) b va h1
+    refine Refines.andThen hb ?_
+    intro vb st2 vb' s2 e2 h2
+    refine OkRel.seq hr1 h2 ?_
+    cases m <;> simp [h2.val]
+  case withState a =>
+    simp only [step, pegStep]
+    have h := (hR env m a { st with insp := [] } hm).restoreInsp st.insp
+    have e : ∀ so : SOut, (so.andThen fun v s1 e1 => SOut.ok v ⟨s1.pos, st.insp⟩ e1) = so.restoreInsp st.insp := by
+      intro so; cases so <;> rfl
+    simp only [ss_pos, ss_insp]
+    rw [e]
+    exact h
+end
 
 end Chumsky
